@@ -1342,6 +1342,43 @@ Plan generate(const std::string& mode, uint64_t seed, uint64_t run) {
   }
   else
     nops = r.chance(1, 5) ? size_t(r.range(40, 80)) : size_t(r.range(5, 40));
+  if (mode == "soak") {
+    // long histories with repetition: a block of 2-8 operations is generated once and then run 5-60 times over
+    // (references are taken modulo the live table, so the same text stays executable as the state moves on),
+    // several blocks per plan, 150-600 operations in all. Judged like `free`.
+    p.head.set("mode", "free");
+    g.vo.maxDepth = 2;
+    g.vo.maxWidth = 3;
+    size_t total = size_t(r.range(150, 600));
+    while (p.ops.size() < total) {
+      size_t blockLen = size_t(r.range(2, 8));
+      size_t reps = size_t(r.range(5, 60));
+      std::vector<Op> block;
+      for (size_t i = 0; i < blockLen; i++) {
+        Op op = g.next();
+        // what grows must shrink: removals and clears get a boost inside blocks
+        if (r.chance(1, 4)) {
+          op = mkop(r.chance(2, 3) ? "rem" : "doc");
+          if (op.name() == "rem") {
+            auto refs = sim.aliveRefs();
+            size_t h = g.pickRef();
+            op.setu("h", h).set("s", g.pickSel(*sim.nodeOf(*refs[h]), true).text()).set("via", int64_t(r.below(4)));
+          } else {
+            static const char* whats[] = {"clear", "shrink", "shrink", "copy", "swap"};
+            std::string w = whats[r.below(sim.ndocs() > 1 ? 5 : 3)];
+            op.set("what", w).setu("d", r.below(uint64_t(sim.ndocs()))).setu("s", r.below(uint64_t(sim.ndocs()))).set("via", 0);
+          }
+        }
+        block.push_back(op);
+      }
+      for (size_t k = 0; k < reps && p.ops.size() < total; k++)
+        for (auto& op : block) {
+          sim.step(op, p.ops.size());
+          p.ops.push_back(op);
+        }
+    }
+    return p;
+  }
   if (limitFault) {
     // the way to the slot limit with one allocation failing on it (every position in turn, see execute()):
     // the failed pool must not come back in a shape that hands out ids the document cannot address
